@@ -3,6 +3,7 @@ import Hpl.Model.Ast
 import Hpl.Model.Build
 import Hpl.Model.BuildProp
 import Hpl.Spec.Eval
+import Hpl.Model.Schema
 /-! Wire codec: AST values <-> S-expressions (DESIGN Appendix D). Driver-side only. -/
 namespace Hpl
 namespace Codec
@@ -238,6 +239,34 @@ def encEvErr : EvErr → Sexp
   | .arith => .list [.atom "everr", .atom "arith"]
   | .domain => .list [.atom "everr", .atom "domain"]
   | .opaque => .list [.atom "everr", .atom "opaque"]
+
+mutual
+partial def encTok : TyTok → Sexp
+  | .prim n t => .list [.atom "prim", .str n, ofNat t]
+  | .arr n sub len => .list [.atom "arr", .str n, encTok sub, ofInt len]
+  | .msg n fs cs => .list [.atom "msg", .str n, .list (encFields fs), .list (encFields cs)]
+partial def encFields : FieldList → List Sexp
+  | .nil => []
+  | .cons n t rest => .list [.str n, encTok t] :: encFields rest
+end
+
+mutual
+partial def decTok : Sexp → Option TyTok
+  | .list [.atom "prim", .str n, t] => do pure (.prim n (← t.natOf))
+  | .list [.atom "arr", .str n, sub, len] => do pure (.arr n (← decTok sub) (← len.intOf))
+  | .list [.atom "msg", .str n, .list fs, .list cs] => do pure (.msg n (← decFields fs) (← decFields cs))
+  | _ => none
+partial def decFields : List Sexp → Option FieldList
+  | [] => some .nil
+  | .list [.str n, t] :: rest => do pure (.cons n (← decTok t) (← decFields rest))
+  | _ => none
+end
+
+def decVarTypes : Sexp → Option VarTypes
+  | .list xs => xs.mapM (fun x => match x with
+      | .list [.str n, t] => do pure (n, ← decTok t)
+      | _ => none)
+  | _ => none
 
 def encErr (e : Err) : Sexp :=
   match e with
